@@ -51,8 +51,18 @@ class MonkeyPatcher:
         """
         for obj, name, value in self._patches_to_apply:
             original_value = getattr(obj, name, self._NO_SUCH_ATTRIBUTE)
+            own_before = name in getattr(obj, "__dict__", ())
             self._originals.append((obj, name, original_value))
             setattr(obj, name, value)
+            if (
+                original_value is not self._NO_SUCH_ATTRIBUTE
+                and not own_before
+                and name in getattr(obj, "__dict__", ())
+            ):
+                # obj only inherited the attribute and setattr has shadowed it:
+                # restoring means removing the shadow again, not freezing the
+                # value that was inherited at this moment.
+                self._originals[-1] = (obj, name, self._NO_SUCH_ATTRIBUTE)
 
     def restore(self):
         """Restore all original values to any patched objects.
